@@ -15,7 +15,13 @@ RULE = ('(a) primitive cases: sample sequence (unsorted, duplicate times with di
         'grid with values multiples of lcm(1..24) (float64 np.interp exact); (b) cache histories: 1-3 getters of kind '
         'simple/record-ndarray/record-h5py/telstate, dtypes float/int/str/bool, aliases, wildcard property maps, '
         'virtual sensors (depth <= 2), ops get(select,extract,kwargs)/cache[name]/setitem/_set_keep/del/add_aliases; '
-        '(c) concatenated caches of 2-3 parts with sensors missing from some parts. A case is non-trivial when at '
+        '(c) concatenated caches of 2-3 parts with sensors missing from some parts; (d) wildcard property merge: sensor '
+        'names and property-map keys over an alphabet with regex-special characters and both letter cases, keys derived '
+        'from the name, from a proper prefix / suffix / infix of it, with one character case-swapped or replaced by a '
+        'regex / fnmatch metacharacter, 0-3 stars, 1-4 entries in every dict order + kwargs: SensorCache._get_props '
+        'against model, Coq precedence spec and a split-based statement of the documented whole-name rule; (e) the same '
+        'name/key families driven through SensorCache.get on 1-3 sensors whose names extend / are extended by each '
+        'other. A case is non-trivial when at '
         'least one numeric extraction with >= 2 usable samples (or a dummy fill) is compared; distinct by canonical JSON')
 ASSUMPTIONS = ['float64 exactness domain: times on a 1/4 s grid (epoch 0 or 1.5e9), node gaps <= 24 grid steps, values '
                'integer multiples of lcm(1..24) below 2^44 so that np.interp is exact and equality is compared',
@@ -23,7 +29,9 @@ ASSUMPTIONS = ['float64 exactness domain: times on a 1/4 s grid (epoch 0 or 1.5e
                'virtual sensor patterns are exact names (regex templates and the prefix behaviour of re.match are not modelled); '
                'the katpoint coordinate functions are not verified',
                'keep is a boolean mask of the length of the timestamps (what DataSet passes)',
-               'parts of a concatenated cache are built with equal property maps (independent dict objects)']
+               'parts of a concatenated cache are built with equal property maps (independent dict objects)',
+               'sensor names are non-empty printable ASCII without "*" and without a newline (a name containing "*" is '
+               'its own wildcard key; "$" also matches before a trailing newline)']
 
 L24 = 5354228880          # lcm(1..24)
 STATUSES = ['nominal', 'warn', 'error', 'unknown', 'failure', 'unreachable', 'inactive', 'nominal2', 'warning',
@@ -504,6 +512,332 @@ def run_primitive(ctx, cases):
         ctx.count('prim_nsamples=%d' % min(len(c['samples']), 6))
 
 
+# ---------------------------------------------------------------------------------------------- wildcard property merge
+def doc_match(key, name):
+    """The documented rule, written without regular expressions: a key with '*' wildcards applies to a sensor iff the
+    WHOLE name is the literal parts of the key, in order, separated by arbitrary (possibly empty) gaps."""
+    parts = key.split('*')
+    if len(parts) == 1:
+        return False                    # no wildcard: the entry is looked up by exact name, never matched
+    first, last, mid = parts[0], parts[-1], parts[1:-1]
+    if len(name) < len(first) + len(last) or not name.startswith(first) or not name.endswith(last):
+        return False
+    pos, end = len(first), len(name) - len(last)
+    for m in mid:                       # leftmost placement of every inner part is complete for this language
+        i = name.find(m, pos, end)
+        if i < 0:
+            return False
+        pos = i + len(m)
+    return True
+
+
+def canon_p(p):
+    """harness property dict -> comparable tuple (off in quarter seconds, cat, init kind/value)"""
+    init = p.get('init')
+    if init is not None:
+        init = ('float', Fraction(init[1])) if init[0] == 'float' else (init[0],)
+    return (None if p.get('off') is None else Fraction(p['off']), p.get('cat'), init)
+
+
+def canon_impl_props(d):
+    """real property dict (time_offset / categorical / initial_value) -> the same tuple; None if anything else is in it"""
+    if not isinstance(d, dict) or set(d) - {'time_offset', 'categorical', 'initial_value'}:
+        return None
+    off = Fraction(float(d['time_offset'])) * 4 if 'time_offset' in d else None
+    cat = bool(d['categorical']) if 'categorical' in d else None
+    init = None
+    if 'initial_value' in d:
+        v = d['initial_value']
+        if isinstance(v, (bool, np.bool_)):
+            init = ('bool',)
+        elif isinstance(v, (int, np.integer)):
+            init = ('int',)
+        elif isinstance(v, (float, np.floating)):
+            init = ('float', Fraction(float(v)))
+        else:
+            init = ('str',)
+    return (off, cat, init)
+
+
+def canon_model_props(m):
+    off = None if m[0] == [] else unq(m[0][0]) * 4
+    cat = None if m[1] == [] else bool(m[1][0])
+    init = None
+    if m[2] != []:
+        k, v = m[2][0]
+        init = ('float', unq(v)) if k == 0 else ({c: n for n, c in DT_CODE.items()}[v],)
+    return (off, cat, init)
+
+
+def doc_props(name, pm, kw):
+    """expected merged properties and expected map afterwards, by the documented rule"""
+    def upd(a, b):
+        return tuple(y if y is not None else x for x, y in zip(a, b))
+    cur = (None, None, None)
+    for (k, p) in pm:
+        if k == name:
+            cur = canon_p(p)
+    for (k, p) in pm:
+        if '*' in k and doc_match(k, name):
+            cur = upd(cur, canon_p(p))
+    cur = upd(cur, canon_p(kw))
+    after = [(k, cur if k == name else canon_p(p)) for (k, p) in pm]
+    if name not in [k for (k, _) in pm]:
+        after.append((name, cur))
+    return cur, after
+
+
+def impl_key_applies(key, name):
+    """does the implementation apply the single entry `key` to `name`? (None if it cannot be asked)"""
+    from katdal.sensordata import SensorCache
+    try:
+        return 'time_offset' in SensorCache._get_props(name, {key: {'time_offset': 1.0}})
+    except Exception:
+        return None
+
+
+def match_relation(pm, name):
+    """classifies HOW the implementation's notion of 'key applies to name' departs from the documented one"""
+    for (k, _) in pm:
+        if '*' not in k:
+            continue
+        got, want = impl_key_applies(k, name), doc_match(k, name)
+        if got is None or got == want:
+            continue
+        if not got:
+            return 'missed_match'
+        n = len(name)
+        if any(doc_match(k, name[:i]) for i in range(n)):
+            return 'name_extends_match'                 # a proper PREFIX of the name fits the key
+        if any(doc_match(k, name[i:]) for i in range(1, n + 1)):
+            return 'name_ends_with_match'               # a proper SUFFIX of the name fits the key
+        if any(doc_match(k, name[i:j]) for i in range(n) for j in range(i, n + 1)):
+            return 'name_contains_match'
+        if doc_match(k.lower(), name.lower()):
+            return 'letter_case'
+        return 'metacharacter'
+    return 'none'
+
+
+def str_p(t):
+    return [None if t[0] is None else str(t[0]), t[1], None if t[2] is None else [str(x) for x in t[2]]]
+
+
+def run_props(ctx, cases):
+    """cases: dict(name, pm=[(key, props)], kw=props): SensorCache._get_props vs model vs documented rule"""
+    from katdal.sensordata import SensorCache
+    if not hasattr(SensorCache, '_get_props'):
+        ctx.count('skipped:no__get_props')
+        return
+    outs = ctx.model([[121, [1, codes(c['name']), [[codes(k), w_props(p)] for (k, p) in c['pm']], w_props(c['kw'])]]
+                      for c in cases])
+    for c, o in zip(cases, outs):
+        name, pm, kw = c['name'], c['pm'], c['kw']
+        case = dict(kind='props', name=name, pm=pm, kw=kw)
+        m_final, m_eff = canon_model_props(o[0]), canon_model_props(o[2])
+        m_after = [(''.join(map(chr, e[0])), canon_model_props(e[1])) for e in o[1]]
+        d_final, d_after = doc_props(name, pm, kw)
+        nstar = sum('*' in k for (k, _) in pm)
+        nmatch = sum(doc_match(k, name) for (k, _) in pm)
+        ctx.note_case(('props', json.dumps(case, sort_keys=True, default=str)), nontrivial=nstar > 0,
+                      sample=dict(kind='props', name=name, keys=[k for (k, _) in pm]))
+        ctx.count('props')
+        ctx.count('props_matching_keys=%d/%d' % (nmatch, nstar))
+        if m_final != d_final or m_after != d_after or m_eff != m_final:
+            ctx.disagree('kind=props;what=model_vs_documented', case, None, [str_p(m_final), str_p(m_eff)],
+                         'model of the wildcard merge differs from the documented whole-name rule / its Coq spec',
+                         spec=str_p(d_final), kind='tie')
+            continue
+        prop_map = {k: py_kwargs(p) for (k, p) in pm}
+        try:
+            got = SensorCache._get_props(name, prop_map, **py_kwargs(kw))
+            i_final = canon_impl_props(got)
+            i_after = [(k, canon_impl_props(v)) for k, v in prop_map.items()]
+        except Exception as exc:
+            ctx.disagree('kind=props;rel=%s;symptom=raises' % match_relation(pm, name), case, repr(exc), str_p(m_final),
+                         '_get_props raised')
+            continue
+        ctx.traces_validated += 1
+        if i_final != d_final:
+            ctx.disagree('kind=props;rel=%s;symptom=props_differ' % match_relation(pm, name), case,
+                         None if i_final is None else str_p(i_final), str_p(m_final),
+                         'merged properties of sensor %r differ from the documented rule (entries apply iff their '
+                         'wildcard key fits the WHOLE name; name entry < wildcards in dict order < kwargs)' % name,
+                         spec=str_p(d_final))
+        elif i_after != d_after:
+            ctx.disagree('kind=props;rel=%s;symptom=map_differs' % match_relation(pm, name), case,
+                         [[k, None if v is None else str_p(v)] for k, v in i_after],
+                         [[k, str_p(v)] for k, v in m_after],
+                         'property map after the merge differs (merged result stored under the name, others untouched)')
+
+
+ALPHA = list('abxy') * 6 + list('AX') * 2 + list('/_') * 4 + list('01') + list('.+?[]()^$|\\{}- ')
+META = ['.', '?', '+', '.*', '.+', '[a-z]', '\\w', '(', '$', '^', '|']
+
+
+def gen_name(rng, lo=1, hi=7):
+    return ''.join(rng.choice(ALPHA) for _ in range(rng.randint(lo, hi)))
+
+
+def star_key(rng, s, nstars=None):
+    """a key that fits the whole of s: 1-3 (possibly empty) substrings of s replaced by '*'"""
+    n = rng.choice([1, 1, 1, 2, 2, 3]) if nstars is None else nstars
+    cuts = sorted(rng.randint(0, len(s)) for _ in range(2 * n))
+    out, pos = [], 0
+    for i in range(n):
+        a, b = cuts[2 * i], cuts[2 * i + 1]
+        out.append(s[pos:a])
+        out.append('*')
+        pos = b
+    out.append(s[pos:])
+    return ''.join(out)
+
+
+def swap_case(rng, s):
+    idx = [i for i, ch in enumerate(s) if ch.isalpha()]
+    if not idx:
+        return s
+    i = rng.choice(idx)
+    return s[:i] + s[i].swapcase() + s[i + 1:]
+
+
+def derive_key(rng, name):
+    """keys that fit the name, and near misses of every kind (the documented rule decides which is which)"""
+    n = len(name)
+    r = rng.random()
+    if r < 0.22:
+        return star_key(rng, name)
+    if r < 0.40 and n > 1:                                   # fits a proper prefix: the name EXTENDS a match
+        k = star_key(rng, name[:rng.randint(1, n - 1)])
+        return k if rng.random() < 0.3 else k.rstrip('*') or '*'
+    if r < 0.52 and n > 1:                                   # fits a proper suffix
+        k = star_key(rng, name[rng.randint(1, n - 1):])
+        return k if rng.random() < 0.3 else k.lstrip('*') or '*'
+    if r < 0.60 and n > 2:                                   # fits an inner piece
+        i = rng.randint(1, n - 1)
+        j = rng.randint(i, n - 1)
+        return star_key(rng, name[i:j])
+    if r < 0.70:
+        return swap_case(rng, star_key(rng, name))
+    if r < 0.84:                                             # one literal character -> regex / fnmatch metacharacter
+        k = star_key(rng, name)
+        idx = [i for i, ch in enumerate(k) if ch != '*']
+        if idx:
+            i = rng.choice(idx)
+            k = k[:i] + rng.choice(META) + k[i + 1:]
+        return k
+    if r < 0.90:
+        return name if rng.random() < 0.5 else star_key(rng, name, 1).replace('*', '')   # no wildcard at all
+    k = gen_name(rng, 0, 4)
+    i = rng.randint(0, len(k))
+    return k[:i] + '*' + k[i:]
+
+
+def gen_wprops(rng):
+    p = {}
+    r = rng.random()
+    if r < 0.75:
+        p['off'] = rng.choice([-4, -3, -2, -1, 1, 2, 3, 4])
+    if rng.random() < 0.25:
+        p['cat'] = rng.random() < 0.5
+    if rng.random() < 0.25 or not p:
+        p['init'] = rng.choice([('float', rng.randint(-5, 5) * L24), ('float', 3), ('int', 7), ('str', 0), ('bool', 1)])
+    return p
+
+
+def gen_pm(rng, names, nmax=4):
+    pm, seen = [], set()
+    for _ in range(rng.randint(1, nmax)):
+        k = derive_key(rng, rng.choice(names))
+        if k not in seen:
+            seen.add(k)
+            pm.append((k, gen_wprops(rng)))
+    return pm
+
+
+def variants(rng, base):
+    """sensor names related to base the way real ones are (x / x_rate / sub_x) plus hostile ones"""
+    ext = lambda: gen_name(rng, 1, 3)
+    return [base + ext(), ext() + base, ext() + base + ext(), swap_case(rng, base), base[:-1] + rng.choice(ALPHA),
+            rng.choice(ALPHA) + base[1:], base + base]
+
+
+def gen_props_case(rng):
+    base = gen_name(rng)
+    names = [base] + rng.sample(variants(rng, base), 2)
+    names = [n for n in names if n and '*' not in n]
+    return dict(name=rng.choice(names), pm=gen_pm(rng, names), kw=gen_wprops(rng) if rng.random() < 0.3 else {})
+
+
+def gen_wild_single(rng):
+    """1-3 sensors whose names extend each other, wildcard entries derived from them, every sensor read via the cache"""
+    base = gen_name(rng, 2, 6)
+    names = []
+    for n in [base] + rng.sample(variants(rng, base), rng.randint(1, 2)):
+        if n and '*' not in n and n not in names:
+            names.append(n)
+    getters = []
+    for _ in names:
+        dtype = rng.choice(['float'] * 5 + ['int'])
+        nsamp = rng.choice([0, 2, 3, 3, 4, 5, 6])
+        status = rng.random() < 0.3
+        samples = [(k, rng.randint(-40, 40) * L24, rng.choice(STATUSES[:3]) if status else '')
+                   for k in sorted(rng.sample(range(0, 25), nsamp))]
+        getters.append(dict(kind=rng.choice(['simple', 'rec']), dtype=dtype, status=status, samples=samples,
+                            swidth=7, ustatus=False))
+    ts = [rng.randint(2, 8) + i * rng.choice([1, 2, 3]) for i in range(rng.randint(2, 6))]
+    ts = sorted(set(ts))
+    c = dict(epoch=rng.choice([0, 1500000000]), getters=getters, raw=[(n, i) for i, n in enumerate(names)], ts=ts,
+             keep=[rng.random() < 0.7 for _ in ts], props=gen_pm(rng, names, 3), virt=[], gname=None)
+    order = list(names)
+    rng.shuffle(order)
+    ops = []
+    for n in order:
+        r = rng.random()
+        kw = gen_wprops(rng) if rng.random() < 0.15 else {}
+        if r < 0.6:
+            ops.append(('get', n, False, True, kw))
+        elif r < 0.8:
+            ops.append(('get', n, True, True, kw))
+        else:
+            ops.append(('item', n))
+        if rng.random() < 0.3:
+            ops.append(('item', n))
+    return c, ops
+
+
+# fixed merge cases with the sensor names of the stock MVFv4 property map (visdatav4.SENSOR_PROPS keys '*noise_diode',
+# '*activity', ...): the near misses are names that extend / end with / contain a match
+def scripted_props():
+    out = []
+    for name in ('asc_wind_speed', 'asc_wind_speed_rate', 'm000_dig_noise_diode', 'm000_dig_noise_diode_power',
+                 'sub_m000_dig_noise_diode', 'M000_DIG_NOISE_DIODE', 'm000_activity', 'm000_activity_x', 'obs_activity'):
+        for pm in ([('*wind_speed', {'off': 3})], [('*noise_diode', {'cat': True}), ('m000*', {'off': -2})],
+                   [('m000_*_noise_diode', {'off': 1}), ('*', {'init': ('float', 3)})],
+                   [('m???_activity*', {'off': 2}), ('m000.activity*', {'off': 4}), ('*activity', {'cat': True, 'off': -1})],
+                   [('m000_activity', {'off': 1}), ('*_activity', {'off': 2}), ('m*', {'cat': False}), ('*y', {'off': 3})]):
+            out.append(dict(name=name, pm=pm, kw={}))
+            out.append(dict(name=name, pm=pm, kw={'off': -3}))
+    return out
+
+
+# the seeded change C12-1 as a fixed history: '*wind_speed' belongs to 'asc_wind_speed', not to 'asc_wind_speed_rate'
+def scripted_wild():
+    ga = dict(kind='simple', dtype='float', status=False, swidth=7, ustatus=False,
+              samples=[(4, 1 * L24, ''), (20, 5 * L24, ''), (44, -1 * L24, ''), (68, 8 * L24, '')])
+    gb = dict(kind='simple', dtype='float', status=False, swidth=7, ustatus=False,
+              samples=[(2, 10 * L24, ''), (24, 2 * L24, ''), (36, 4 * L24, ''), (60, -3 * L24, '')])
+    out = []
+    for props in ([('*wind_speed', {'off': 12})], [('*wind_speed', {'cat': False, 'off': 4}), ('asc*', {'off': -4})],
+                  [('*noise_diode', {'cat': True}), ('*d_s*', {'off': 8})]):
+        for order in (('asc_wind_speed', 'asc_wind_speed_rate'), ('asc_wind_speed_rate', 'asc_wind_speed')):
+            c = dict(epoch=0, getters=[ga, gb], raw=[('asc_wind_speed', 0), ('asc_wind_speed_rate', 1)],
+                     ts=list(range(0, 80, 8)), keep=[True, False] * 5, props=props, virt=[], gname=None)
+            out.append((c, [('get', order[0], False, True, {}), ('get', order[1], False, True, {}),
+                            ('item', order[0]), ('item', order[1])]))
+    return out
+
+
 # ---------------------------------------------------------------------------------------------- generators
 def gen_samples(rng, status, n=None, lo=0, hi=24):
     n = rng.choice([0, 1, 1, 2, 2, 3, 4, 5, 6, 8]) if n is None else n
@@ -555,10 +889,13 @@ def gen_primitive(rng):
 
 
 NAMES = ['a/x', 'a/y', 'b/x', 'b/yx']
+# names that EXTEND another name to the right / left / both (a wildcard key fitting 'a/x' must not leak onto them)
+XNAMES = NAMES + ['a/xb', 'ba/x', 'ba/xb', 'A/x']
+KEYS = ['a/x', '*x', 'a/*', '*', 'b/*x', '*/y*', 'zz', 'a*x', '*/x', 'a/x*', '*a/x', 'a.*', 'b*/*x']
 VNAMES = ['v/p0', 'v/q0', 'v/r0', 'w/s0']
 
 
-def gen_cache(rng, kinds=('simple', 'rec', 'h5', 'telstate'), names=NAMES, allow_virtual=True, gname=None):
+def gen_cache(rng, kinds=('simple', 'rec', 'h5', 'telstate'), names=XNAMES, allow_virtual=True, gname=None):
     ng = rng.randint(1, 3)
     getters = []
     for _ in range(ng):
@@ -583,7 +920,7 @@ def gen_cache(rng, kinds=('simple', 'rec', 'h5', 'telstate'), names=NAMES, allow
     raw = [(n, rng.randrange(ng)) for n in nm]
     ts = gen_ts(rng)
     keep = [rng.random() < 0.6 for _ in ts]
-    keys = rng.sample(['a/x', '*x', 'a/*', '*', 'b/*x', '*/y*', 'zz'], rng.randint(0, 3))
+    keys = rng.sample(KEYS, rng.randint(0, 3))
     props = [(k, gen_props(rng, 0.9)) for k in keys]
     virt = []
     if allow_virtual and rng.random() < 0.5:
@@ -628,12 +965,12 @@ def gen_ops(rng, c, n=None):
 
 def gen_concat(rng):
     nparts = rng.randint(2, 3)
-    keys = rng.sample(['a/x', '*x', 'a/*', '*'], rng.randint(0, 2))
+    keys = rng.sample(['a/x', '*x', 'a/*', '*', 'a*x', '*/x'], rng.randint(0, 2))
     props = [(k, gen_props(rng, 0.9)) for k in keys]
     cs = []
     epoch = rng.choice([0, 1500000000])
     for i in range(nparts):
-        c = gen_cache(rng, kinds=('simple', 'rec', 'h5'), names=NAMES[:3], allow_virtual=False)
+        c = gen_cache(rng, kinds=('simple', 'rec', 'h5'), names=NAMES[:3] + ['a/xb', 'ba/x'], allow_virtual=False)
         c['epoch'] = epoch
         c['props'] = [(k, dict(p)) for (k, p) in props]
         # one getter per name, named after the sensor (ConcatenatedSensorGetter insists on equal names)
@@ -720,18 +1057,21 @@ def _fix_case(case):
         c = {k: v for k, v in case.items() if k not in ('kind', 'failing_op')}
         c['samples'] = [tuple(s) for s in c['samples']]
         return 'primitive', c, None
-    return 'single', fix_cache(case['cache']), ops
+    return case.get('kind', 'single'), fix_cache(case['cache']), ops
 
 
 def run_case(ctx, case):
     if case.get('kind') == 'unpack':
         return run_unpack(ctx, case)
+    if case.get('kind') == 'props':
+        c = json.loads(json.dumps(case, default=str))
+        return run_props(ctx, [dict(name=c['name'], pm=[tuple(e) for e in c['pm']], kw=c['kw'])])
     kind, a, ops = _fix_case(json.loads(json.dumps(case, default=str)))
     if kind == 'concat':
         return run_concat(ctx, a, ops)
     if kind == 'primitive':
         return run_primitive(ctx, [a])
-    return run_single(ctx, a, ops)
+    return run_single(ctx, a, ops, kind=kind if kind in ('single', 'wild') else 'single')
 
 
 def run_unpack(ctx, case):
@@ -771,7 +1111,18 @@ def run(ctx):
         nt = run_single(ctx, c, ops)
         ctx.note_case(('scripted', json.dumps([c, ops], sort_keys=True, default=str)), nontrivial=nt,
                       sample=dict(kind='scripted', ops=[o[:2] for o in ops]))
+    for c, ops in scripted_wild():
+        nt = run_single(ctx, c, ops, kind='wild')
+        ctx.note_case(('scripted_wild', json.dumps([c, ops], sort_keys=True, default=str)), nontrivial=nt,
+                      sample=dict(kind='scripted_wild', props=[k for (k, _) in c['props']], ops=[o[:2] for o in ops]))
     run_primitive(ctx, [gen_primitive(rng) for _ in range(ctx.scale(1200, 24000))])
+    run_props(ctx, scripted_props() + [gen_props_case(rng) for _ in range(ctx.scale(4000, 80000))])
+    for _ in range(ctx.scale(700, 14000)):
+        c, ops = gen_wild_single(rng)
+        nt = run_single(ctx, c, ops, kind='wild')
+        ctx.note_case(('wild', json.dumps([c, ops], sort_keys=True, default=str)), nontrivial=nt,
+                      sample=dict(kind='wild', names=[n for (n, _) in c['raw']], keys=[k for (k, _) in c['props']]))
+        ctx.count('wild')
     for _ in range(ctx.scale(1300, 26000)):
         c = gen_cache(rng)
         ops = gen_ops(rng, c)
@@ -818,6 +1169,6 @@ def replay(ctx, doc):
     import logging
     logging.getLogger('katdal').setLevel(logging.ERROR)
     case = doc.get('case') or doc.get('witness') or {}
-    if case.get('kind') in ('single', 'concat', 'primitive', 'unpack'):
+    if case.get('kind') in ('single', 'wild', 'concat', 'primitive', 'unpack', 'props'):
         run_case(ctx, case)
         ctx.note_case(('replay', json.dumps(case, sort_keys=True, default=str)))
